@@ -252,7 +252,7 @@ class ListOf(Ty):
         def elem(interp2, idx_term, uid=uid):
             return make_indexed(interp2, elem_ty, uid, idx_term)
 
-        return SList(n, elem, uid)
+        return SList(n, elem, uid, ident=(uid, ()))
 
 
 class MapOf(Ty):
@@ -387,6 +387,12 @@ def make_indexed(interp, ty, uid, idx_term, prefix=()):
         return SOpt(f(*idx), make_indexed(interp, ty.inner, uid, idx_term, prefix))
     if isinstance(ty, Const):
         return ty.value
+    if isinstance(ty, OneOf):
+        if len(ty.values) == 1:
+            return ty.values[0]
+        t = z3.Function(uid + '[].idx', *(sorts + [z3.IntSort()]))(*idx)
+        st.assume(z3.And(t >= 0, t < len(ty.values)))
+        return SChoice(t, ty.values)
     raise Unsupported('indexed element of type %r' % (ty,))
 
 
@@ -540,7 +546,8 @@ def _indexed_scalar(interp, o, name, ty):
         def elem(interp2, j, base=base, idx=idx):
             return make_indexed(interp2, elem_ty, base, j, prefix=idx)
 
-        return SList(n, elem, '%s<%s>' % (base, ','.join(z3.simplify(t).sexpr() for t in idx)))
+        return SList(n, elem, '%s<%s>' % (base, ','.join(z3.simplify(t).sexpr() for t in idx)),
+                     ident=(base, tuple(idx)))
     if isinstance(ty, Opaq):
         return OpaqueVal('%s<%s>' % (base, ','.join(z3.simplify(t).sexpr() for t in idx)))
     raise Unsupported('indexed attribute of type %r' % (ty,))
